@@ -121,7 +121,8 @@ def raw_tables(env):
 class C05(Prop):
     id = 'C05'
     theorems = ['Continuum.c05_target', 'Continuum.c05_delete_target', 'Continuum.c05_target_frame', 'Continuum.c05_o2m',
-                'Continuum.c05_o2m_frame', 'Continuum.history_all']
+                'Continuum.c05_o2m_frame', 'Continuum.c05_m2m', 'Continuum.c05_m2m_frame', 'Continuum.c05_m2m_idem_eq',
+                'Continuum.c05_m2o', 'Continuum.c05_m2o_frame', 'Continuum.history_all']
     workers = 14
     chunk = 1
     rule = ('random histories on the Article 1-n Tag shape (optionally with an excluded column) and the many-to-many shape, both '
